@@ -1268,8 +1268,9 @@ func (t *tree) errorf(format string, args ...interface{}) {
 func (t *tree) errorfAt(pos ast.Pos, format string, args ...interface{}) {
 	t.root = nil
 	var line, col = t.lex.lineNumber(pos), t.lex.columnNumber(pos)
-	format = fmt.Sprintf("template %s:%d:%d: %s", t.name, line, col, format)
-	panic(errortypes.NewErrFilePosf(t.name, line, col, format, args...))
+	// (the file name is data, not part of the format: it may contain a '%')
+	panic(errortypes.NewErrFilePosf(t.name, line, col, "template %s:%d:%d: %s",
+		t.name, line, col, fmt.Sprintf(format, args...)))
 }
 
 // error terminates processing.
